@@ -136,7 +136,16 @@ class TableGen:
             r.shuffle(params)
             bases = []
             if c > 0:
-                for b in r.sample(range(c), 1 if r.random() < 0.85 or c < 2 else 2):
+                chosen = r.sample(range(c), 1 if r.random() < 0.85 or c < 2 else 2)
+                if len(chosen) == 2:
+                    # two bases only when they share no ancestor and no field: there the depth-first search of the model
+                    # and Python's C3 linearisation agree (diamonds are outside the model, see the claim text)
+                    a1, a2 = self.ancestors(classes, chosen[0]), self.ancestors(classes, chosen[1])
+                    f1 = set(self.all_fields(classes, [(chosen[0], [])]))
+                    f2 = set(self.all_fields(classes, [(chosen[1], [])]))
+                    if a1 & a2 or f1 & f2:
+                        chosen = chosen[:1]
+                for b in chosen:
                     bparams = classes[b]["params"]
                     bases.append((b, [self.ann(params, 1) if params or True else tc(INT) for _ in bparams]))
             own = []
@@ -150,6 +159,12 @@ class TableGen:
             # every base argument / annotation must only use the class's own parameters: guaranteed by ann(params)
             classes.append({"params": params, "bases": bases, "own": own})
         return classes
+
+    def ancestors(self, classes, c):
+        out = {c}
+        for b, _ in classes[c]["bases"]:
+            out |= self.ancestors(classes, b)
+        return out
 
     def all_fields(self, classes, bases):
         out = []
